@@ -970,6 +970,10 @@ func (g *gen1) reuseForest(n int) *reuse {
 					x.max = 7 + i
 					body = append(body, fmt.Sprintf("max-elements %d;", x.max))
 				}
+				if x.kind == "container" && !x.presence && g.r.Intn(3) == 0 {
+					x.presence = true
+					body = append(body, "presence \"p\";")
+				}
 				if len(body) > 0 {
 					refs = append(refs, "refine "+p+" { "+strings.Join(body, " ")+" }")
 				}
